@@ -247,7 +247,7 @@ class Model:
     def request(self, ch, o, runs, fault_task=None, stack=None):
         """-> True if ok, False if a fault propagated. `runs` collects (canonical task name, key) of expected run starts."""
         if o.in_memory:
-            if self.t(o.ri, o.ref_name)['spec']['data_kind'] in ('lazy', 'dir', 'continues', 'empty_dir') and self.loc(o) not in self.store:
+            if self.t(o.ri, o.ref_name)['spec']['data_kind'] in ('lazy', 'dir', 'continues', 'empty_dir', 'dir_link') and self.loc(o) not in self.store:
                 self.tainted = True     # in-memory handle (path / lazy reader) to files that were deleted on request by another chain
             return True
         if self.persisting(o) and self.loc(o) in self.store and not o.forced:
